@@ -540,8 +540,12 @@ func runHistory(t *testing.T, h *History) (lines []string) {
 				if hasBody(rp.Status, op.Method) {
 					body = tokenFor(n, k) + rp.Body
 				}
+				// as the transport sees them: net/textproto strips leading and trailing
+				// spaces / tabs from field values read off the wire
 				fr := Hdr{}
-				fr = append(fr, rp.Hdr...)
+				for _, p := range rp.Hdr {
+					fr = append(fr, [2]string{p[0], strings.Trim(p[1], " \t")})
+				}
 				if body != "" || hasBody(rp.Status, op.Method) {
 					if !rp.Chunked && !rp.NoCL {
 						fr = append(fr, [2]string{"Content-Length", strconv.Itoa(len(body))})
